@@ -350,6 +350,106 @@ fn stream_boundary_checks(rep: &mut Report) {
 }
 
 // ------------------------------------------------------------------------------------------------
+// long streams: 5..11 tensors of a 64- or 128-bit element type (1500..4000 dense-digit elements each, several hundred
+// kilobytes in all) written one after another through one writer and read back through one reader whose source hands the
+// text over in large or in shrinking pieces; the text ends with the last digit of the last element (Tensor::write emits
+// no trailing separator), so the reader's buffer has been refilled many times when it meets the end of input.
+
+struct ShrinkingSource {
+    data: Vec<u8>,
+    pos: usize,
+    next_len: usize,
+}
+
+impl std::io::Read for ShrinkingSource {
+    fn read(&mut self, buf: &mut [u8]) -> std::io::Result<usize> {
+        let n = self.next_len.min(buf.len()).min(self.data.len() - self.pos);
+        buf[..n].copy_from_slice(&self.data[self.pos..self.pos + n]);
+        self.pos += n;
+        // every piece a little shorter than the one before, then long again
+        self.next_len = if self.next_len > 3000 { self.next_len * 7 / 8 } else { 1 << 20 };
+        Ok(n)
+    }
+}
+
+fn long_stream_checks(seed: u64, rep: &mut Report) {
+    macro_rules! one {
+        ($t:ty, $name:expr, $gen:expr) => {{
+            for variant in 0..3u64 {
+                let mut rng = Rng::new(common::mix(&[seed, 0x10_57, variant, common::hash_str($name)]));
+                rep.inc("evaluations");
+                rep.inc("long_stream_cases");
+                let replay = vec!["--long-stream".to_string()];
+                let r = catch(|| {
+                    let k = rng.range_usize(5, 11);
+                    let mut tensors: Vec<Tensor<$t, 2>> = Vec::new();
+                    let mut v: Vec<u8> = Vec::new();
+                    {
+                        let mut w = lib!(Writer::new(Box::new(&mut v)));
+                        for i in 0..k {
+                            let dims = [rng.range_usize(1, 60), rng.range_usize(25, 70)];
+                            let len = dims[0] * dims[1];
+                            let f: fn(&mut Rng) -> $t = $gen;
+                            let data: Vec<$t> = (0..len).map(|_| f(&mut rng)).collect();
+                            let t = lib!(Tensor::<$t, 2>::from_vec(dims, data));
+                            if i > 0 {
+                                lib!(w.write_char('\n'));
+                            }
+                            lib!(w.write(&t));
+                            tensors.push(t);
+                        }
+                        lib!(w.flush());
+                    }
+                    let total = v.len();
+                    let mut reader = if variant == 1 {
+                        Reader::new(Box::new(ShrinkingSource { data: v.clone(), pos: 0, next_len: 1 << 20 }))
+                    } else if variant == 2 {
+                        Reader::new(Box::new(ShrinkingSource { data: v.clone(), pos: 0, next_len: 50_000 }))
+                    } else {
+                        reader_over(&v)
+                    };
+                    let mut first_bad: Option<usize> = None;
+                    for (i, t) in tensors.iter().enumerate() {
+                        let dims = [t.dim(0), t.dim(1)];
+                        let back = lib!(Tensor::<$t, 2>::read(dims, &mut reader));
+                        if back != *t && first_bad.is_none() {
+                            first_bad = Some(i);
+                        }
+                    }
+                    (first_bad, k, total)
+                });
+                match r {
+                    Ok((None, _, n)) => rep.max("max_stream_bytes", n as i64),
+                    Ok((Some(i), k, n)) => rep.violation(
+                        format!("stream_roundtrip:long:{}", $name),
+                        Json::obj()
+                            .set("what", "tensors written one after another through one writer and read back through one reader differ from the originals (long stream, text ends with the last element)")
+                            .set("element_type", $name)
+                            .set("tensors", k)
+                            .set("first_tensor_that_differs", i)
+                            .set("stream_bytes", n)
+                            .set("source", ["one large piece", "shrinking pieces from 2^20 bytes", "shrinking pieces from 50000 bytes"][variant as usize]),
+                        replay.clone(),
+                    ),
+                    Err(p) => {
+                        if p.in_lib {
+                            rep.violation("panic:stream_roundtrip".to_string(), Json::obj().set("panic", p.msg.as_str()).set("at", format!("{}:{}", p.file, p.line)).set("element_type", $name), replay.clone());
+                        } else {
+                            rep.inconclusive(format!("harness panic at {}:{}: {}", p.file, p.line, p.msg));
+                        }
+                    }
+                }
+            }
+        }};
+    }
+    one!(u64, "u64", |r| if r.chance(1, 6) { r.next_u64() >> r.below(64) } else { r.next_u64() });
+    one!(i64, "i64", |r| if r.chance(1, 6) { (r.next_u64() >> r.below(64)) as i64 } else { r.next_u64() as i64 });
+    one!(i128, "i128", |r| (((r.next_u64() as u128) << 64 | r.next_u64() as u128) >> r.below(100)) as i128 * if r.chance(1, 2) { -1 } else { 1 });
+    one!(usize, "usize", |r| r.next_u64() as usize);
+    one!(u32, "u32", |r| r.next_u64() as u32);
+}
+
+// ------------------------------------------------------------------------------------------------
 // IO helpers (the real Writer / Reader over in-memory buffers)
 
 fn write_out<W: Writable>(t: &W) -> Vec<u8> {
@@ -1125,6 +1225,7 @@ fn main() {
     {
         let mut rep = Report::new();
         stream_boundary_checks(&mut rep);
+        long_stream_checks(seed, &mut rep);
         report.merge(rep);
     }
     // deterministic sample order
